@@ -42,7 +42,7 @@ out.append('\n'.join(f)+'\n')
 # seeds
 s=["\n## A7. Seeded changes (independent breaking changes) and which check catches them\n",
 "Each change was written by a fresh sub-agent that saw only the property text and a scratch\nworktree (nothing from /verif), compiles, passes the existing suite, and comes with a\ndemonstration that fails with it and passes without it — all re-confirmed by\n`tools/validate_seed.sh` in a scratch worktree.  `tools/seed_matrix.sh` applies each\npatch to a scratch worktree of /repo HEAD and runs the property's quick check against it\n(`VERIF_REPO` override; /repo itself is never touched).\n",
-"Three rounds were run (ids -a/-b, -c/-d; round 3 = the -c/-d ids of C02, C04, C05, C07, C08, C09, C11, C13, C20).  A change that the\nchecks missed when it was delivered led to a stronger check (last column); every listed change is\nnow reported.  Not listed: one round-3 change for C07 (a wrong variable in optimizer.analyzeCuts):\nthat function was rewritten by fix ca3fc151e before the change could be validated, so the patch no\nlonger applies.\n",
+"Four rounds were run (ids -a/-b, -c/-d; round 3 = the -c/-d ids of C02, C04, C05, C07, C08, C09, C11, C13, C20; round 4 = the -e ids: changes that only manifest under particular goroutine interleavings of the threaded scanner, of two lake clients, of the loader).  A change that the\nchecks missed when it was delivered led to a stronger check (last column); every listed change is\nnow reported.  Not listed: one round-3 change for C07 (a wrong variable in optimizer.analyzeCuts):\nthat function was rewritten by fix ca3fc151e before the change could be validated, so the patch no\nlonger applies.\n",
 "| seed | what it breaks | needs | caught by |","|---|---|---|---|"]
 for d in sorted(glob.glob('/verif/seeded/*/meta.json')):
     m=json.load(open(d))
